@@ -144,6 +144,8 @@ def factor_of_map(T, um):
     dims = [Fr(0)] * 8
     for (p, u), e in um.items():
         ff, dd = T.atom(p, u, e.numerator, e.denominator)
+        if not (1e-290 < ff < 1e290):
+            raise OverflowError('unit factor outside the normal float range (subnormal factors lose precision)')
         f *= ff
         dims = [a + b for a, b in zip(dims, dd)]
     return f, tuple(dims)
@@ -289,6 +291,16 @@ def _run(case, ctx):
         if exc is None:
             devs.append(dev('sum-of-different-dimensions-accepted', dict(descr, result=repr(res)[:100])))
         return outcome(classes=classes, nontrivial=True, fp=fp, dev=devs, monitors=mon, sample=dict(descr, expected='error', observed=repr(exc)[:100]))
+    if exc is not None and isinstance(exc, OverflowError) and expU is not None:
+        # the factor of ONE unit of the result leaves the float range although the total does not: not a verdict
+        import math as _m
+        for (pp, uu), ee in expU.items():
+            try:
+                f1 = T.atom(pp, uu)[0]
+                if f1 > 0 and abs(_m.log10(f1) * float(ee)) > 300:
+                    return outcome(skip='overflow-in-single-unit-factor')
+            except Exception:
+                return outcome(skip='overflow-in-single-unit-factor')
     if exc is not None:
         known = None
         if number_b and left and case.get('numtype') in ('np.float64', 'np.int', 'ndarray') and isinstance(exc, AttributeError) \
@@ -300,6 +312,10 @@ def _run(case, ctx):
     r_um = U.unitmap_from_real(res.baseunits)
     try:
         Fr_, Dr_ = factor_of_map(T, r_um)
+        if not (Fr_ > 0 and 1e-300 < Fr_ < 1e300):
+            return outcome(skip='overflow-in-single-unit-factor')      # the model factor of the reported units leaves the float range
+    except (OverflowError, ZeroDivisionError):
+        return outcome(skip='overflow-in-single-unit-factor')
     except Exception as e_:
         devs.append(dev('result-units-unknown-to-tables', dict(descr, units=res.units(), exc=repr(e_)[:100])))
         return outcome(classes=classes, nontrivial=nontriv, fp=fp, dev=devs, monitors=mon, sample=descr)
